@@ -84,6 +84,21 @@ def make_tag(kind):
     if kind == "t3t":
         return simtags.T3Tag(simtags.t3_image(0x10, 4, 1, 4, 3,
                                               b"\xd0\x00\x00"))
+    if kind in ("t4a", "t4a+dep"):
+        from vlib import isodep_card
+        app = isodep_card.T4App(0x20, 255, 255, 64, 64, b"\xd0\x00\x00")
+        tag = isodep_card.T4Tag(app, "A", 8, 4, None, 0)
+        if kind == "t4a+dep":
+            # a Type 4A tag that also announces NFC-DEP: SEL_RES 60h
+            plain = tag.target
+
+            def target(poll):
+                t = plain(poll)
+                if t is not None:
+                    t.sel_res = bytearray(b"\x60")
+                return t
+            tag.target = target
+        return tag
     return None
 
 
@@ -263,8 +278,9 @@ def case_strategy():
         "llcp": st.one_of(st.none(), kind_opts("llcp")),
         "card": st.one_of(st.none(), st.none(), kind_opts("card")),
         "env": st.fixed_dictionaries({
-            "tag": st.sampled_from([None, "t2t", "t2t", "t3t", "t3t"]),
-            "tag_life": st.sampled_from([3, 12, 30, 1000]),
+            "tag": st.sampled_from([None, "t2t", "t2t", "t3t", "t3t", "t4a",
+                                    "t4a+dep", "t4a+dep"]),
+            "tag_life": st.sampled_from([3, 12, 30, 1000, 1000]),
             "peer": st.sampled_from([None, None, "initiator", "target"]),
             "peer_time": st.sampled_from([0.3, 1.0, 3.0]),
             "reader_visits": st.sampled_from([0, 1, 1, 2]),
@@ -274,6 +290,28 @@ def case_strategy():
                 st.integers(1, 25)))}),
         "terminate_at": st.integers(1, 14),
         "seed": st.integers(0, 255)})
+
+
+def enum_tagtypes(tier, seed):
+    """every supported tag type in a stable field x rdwr callbacks: a tag the
+    application accepts must reach on-connect"""
+    for tag in ("t2t", "t3t", "t4a", "t4a+dep"):
+        for discover in (True, "default", False):
+            for connect in (True, False, 1):
+                for targets in (None, ["106A", "212F"], ["212F", "106A"]):
+                    for term in (6, 14):
+                        yield {
+                            "rdwr": {"startup": "default",
+                                     "discover": discover, "connect": connect,
+                                     "release": True, "targets": targets,
+                                     "iterations": None, "interval": None,
+                                     "beep": None},
+                            "llcp": None, "card": None,
+                            "env": {"tag": tag, "tag_life": 1000,
+                                    "peer": None, "peer_time": 0.3,
+                                    "reader_visits": 0, "reader_cmds": 0,
+                                    "fault": None},
+                            "terminate_at": term, "seed": 0}
 
 
 def build_options(case, trace, objects):
@@ -444,6 +482,18 @@ def judge(case, ctx, trace, out, done, blocked, tcalls, objects,
                 if state == "connected":
                     raise Violation("on-discover-before-release",
                                     "%s %r" % (kind, seq))
+                if state == "discovered" and kind == "rdwr" and spec and \
+                        case["rdwr"]["connect"] != "default" and \
+                        case["env"]["fault"] is None and \
+                        case["env"].get("tag") and \
+                        case["env"].get("tag_life", 0) >= 1000 and \
+                        case["env"].get("peer") is None:
+                    # the application accepted a tag that stays in the field
+                    # and is of a supported type: it must be activated and
+                    # handed to on-connect, not discovered over and over
+                    raise Violation("accepted-tag-never-connected",
+                                    "tag %r: %r" % (case["env"]["tag"],
+                                                    seq[:6]))
                 state = "discovered"
             elif name == "connect":
                 if state == "connected":
@@ -952,8 +1002,15 @@ def run_sense(case, ctx):
 
 
 LEGS = [
+    Leg("tagtypes", run=run_connect, enum=enum_tagtypes, exhaustive=True,
+        rule="Type 2, Type 3, Type 4A (SEL_RES 20h) and Type 4A + NFC-DEP "
+             "(SEL_RES 60h) tags in a stable field x on-discover true / "
+             "default / false x on-connect true / false x 3 target lists x "
+             "2 terminate points: the callback contract, and a tag the "
+             "application accepted must be activated and reach on-connect; "
+             "non-trivial = a tag was discovered."),
     Leg("connect", run=run_connect, gen=lambda tier: case_strategy(),
-        quick=900, thorough=30000, shards_quick=8, shards_thorough=16,
+        quick=2400, thorough=30000, shards_quick=8, shards_thorough=16,
         nt_floor=0.2,
         rule="generated rdwr/llcp/card option dictionaries (callback return "
              "values incl. wrong types) x environment (tag, peer stack, "
